@@ -58,6 +58,7 @@ type ingReq struct {
 	hb, ow bool
 	ser    string // header value for X-RPCX-SerializeType ("" = omit)
 	msgID  string // header value for X-RPCX-MessageID
+	idJSON string // JSON-RPC: the JSON text of the "id" member ("" = the number id)
 }
 
 func gatewayCall(addr string, q ingReq, body []byte) httpRes {
@@ -94,7 +95,11 @@ func gatewayCall(addr string, q ingReq, body []byte) httpRes {
 
 func jsonrpcCall(addr string, q ingReq) (httpRes, map[string]json.RawMessage) {
 	params, _ := json.Marshal(q.args)
-	body := fmt.Sprintf(`{"jsonrpc":"2.0","id":%d,"method":"%s.%s","params":%s}`, q.id, q.path, q.method, params)
+	idJSON := q.idJSON
+	if idJSON == "" {
+		idJSON = fmt.Sprint(q.id)
+	}
+	body := fmt.Sprintf(`{"jsonrpc":"2.0","id":%s,"method":"%s.%s","params":%s}`, idJSON, q.path, q.method, params)
 	req, _ := http.NewRequest("POST", "http://"+addr+"/", strings.NewReader(body))
 	req.Header.Set("X-JSONRPC-2.0", "true")
 	req.Header.Set("Content-Type", "application/json")
